@@ -33,7 +33,7 @@ C14_VOS = ["Base/Conv.vo", "DD/Table.vo", "DD/TableExtra.vo", "DD/Sem.vo", "DD/B
            "Num/I64.vo", "DD/ApplyBcdd.vo", "DD/FamSpec.vo", "DD/ZbddOps.vo", "DD/ZbddBool.vo", "DD/ApplyMtbdd.vo",
            "Mgr/OomGen.vo", "Mgr/OomBcdd.vo", "Mgr/OomZbdd.vo", "Mgr/OomMtbdd.vo",
            "DD/Quant.vo", "Mgr/OomBddQ.vo", "DD/QuantBcdd.vo", "Mgr/OomBcddQ.vo", "Mgr/OomZbddV.vo",
-           "DD/Tdd.vo", "DD/ApplyTdd.vo", "Mgr/OomTdd.vo", "DD/Pick.vo", "Mgr/OomPick.vo"]
+           "DD/Tdd.vo", "DD/ApplyTdd.vo", "Mgr/OomTdd.vo", "DD/Pick.vo", "Mgr/OomPick.vo", "DD/IsoCheck.vo"]
 PROPS = ["C14", "C01", "C02", "C03", "C04", "C05", "C09", "C10", "C11", "C13"]
 BIG = 1 << 14
 
